@@ -220,7 +220,8 @@ Definition is_v1_p2tr (s : bytes) : bool :=
   len_is s 34 && (at_ s 0 =? OP_PUSHNUM_1) && (at_ s 1 =? OP_PUSHBYTES_32).
 Definition is_v1plus_p2witprog (s : bytes) : bool :=
   (1 <? lenN s) && (lenN s =? at_ s 1 + 2)
-  && (OP_PUSHNUM_1 <=? at_ s 0) && (at_ s 0 <=? OP_PUSHNUM_16) && (at_ s 1 <=? OP_PUSHBYTES_40).
+  && (OP_PUSHNUM_1 <=? at_ s 0) && (at_ s 0 <=? OP_PUSHNUM_16)
+  && (OP_PUSHBYTES_2 <=? at_ s 1) && (at_ s 1 <=? OP_PUSHBYTES_40).
 Definition is_v0_p2wpkh (s : bytes) : bool :=
   len_is s 22 && (at_ s 0 =? OP_PUSHBYTES_0) && (at_ s 1 =? OP_PUSHBYTES_20).
 Definition is_op_return (s : bytes) : bool := negb (is_empty s) && (at_ s 0 =? OP_RETURN).
@@ -328,8 +329,6 @@ Definition payload_wf (a : payload) : bool :=
   | PubkeyHash h | ScriptHash h => len_is h 20
   | WitnessProgram v prog => (v <=? 16) && (2 <=? lenN prog) && (lenN prog <=? 40)
                              && (negb (v =? 0) || len_is prog 20 || len_is prog 32) end.
-(* finding F14: version 1..16 followed by a push of 0 or 1 bytes that ends the script *)
-Definition known_F14 (s : bytes) : bool := is_v1plus_p2witprog s && (at_ s 1 <? 2).
 (* the scripts the property says have an address: p2pkh, p2sh, v0 with 20 or 32 bytes, v1..v16 with 2..40 bytes *)
 Definition address_template (s : bytes) : Prop :=
   (exists h, length h = 20%nat /\ s = x76 :: xa9 :: x14 :: h ++ [x88; xac])
